@@ -29,6 +29,7 @@ def gen_case(rng, tier):
     prof["l3_kernels"] = True
     prof["multiblock"] = rng.random() < 0.2  # functions with several blocks (cf.br / cf.cond_br)
     prof["streams"] = rng.random() < 0.25  # dart streaming regions on snax_xdma (DM for extension kernels) / snax_alu (compute)
+    prof["exec_region"] = rng.choice([0, 0, 0.3])  # scf.execute_region with cf branches among the conditionals
     ast = B.BufGen(rng, prof).program()
     if rng.random() < 0.1:
         ast["core_query"] = True
@@ -51,7 +52,7 @@ def roles_of(ast):
                 # a kernel-less XDMA transfer is an accelerator op that has to run on exactly one of the two special
                 # cores (the tree runs it on the compute core; the statement does not say which one)
                 out[s["tag"]] = "dm" if s["kind"] in ("xdma-add", "xdma-rescale-up", "xdma-rescale-down") else ("either" if s["kind"] == "xdma-plain" else "compute")
-            for key in ("body", "then", "else"):
+            for key in ("body", "then", "else", "entry", "b1", "b2"):
                 walk(s.get(key, []))
 
     walk(ast["body"])
